@@ -15,7 +15,9 @@ import WcModel.Model.WinDrive
   for every `g` in the documented grammar with `!(…)` in the stated scope.  It is FALSE on the
   current tree for two reasons, both recorded as known findings with witnesses below:
     D1  a repeated group (`*(…)`, `+(…)`) at the start of the name re-tests the start-of-name
-        guards at every iteration  (`+(?)` rejects `a.b`);
+        guards at every iteration  (`+(?)` rejects `a.b`) — only groups whose body carries a
+        guard at a start position (`Pat.guardFree`) are excluded: `+(ab|c?)`, and under DOTMATCH
+        `+(?)` or `*([a-z])`, are covered;
     D3  the look-ahead of `!(…)` ends in `$`, which also accepts before a final newline
         (`!(a)` rejects `a\n`).
   `C01_partial` is the full statement minus exactly those two cases.
@@ -40,7 +42,7 @@ theorem wrap_fullmatch (ci : Bool) (r : Re) (s : List Char) :
 theorem C01_partial (isBytes dot ci : Bool) (g : Pat)
     (hscope : g.c01Scope = true)          -- `!(…)` negation-free, followed only by literal text
     (hslash : g.noSlash = true)           -- `/` has no meaning in a file-name pattern
-    (hD1 : g.startSafe = true)            -- no repeated group at the start of the name (D1)
+    (hD1 : g.startSafe dot = true)        -- repeated groups at the start have guard-free bodies (D1)
     (s : List Char) (hne : s ≠ [])        -- non-empty name
     (hdot : dot = true ∨ s.head? ≠ some '.')               -- leading dots are C03's business
     (hD3 : g.negFree = true ∨ s.getLast? ≠ some '\n') :    -- `$` before a final newline (D3)
@@ -87,7 +89,7 @@ def specMatch (p s : String) : Bool :=
     a literal tail), and code = spec on it -/
 theorem nonvacuous :
     (match Grammar.parsePat true "@(a|?(b)c)[!x]!(d|e*).txt".toList with
-     | some g => g.c01Scope && g.noSlash && g.startSafe
+     | some g => g.c01Scope && g.noSlash && g.startSafe false
      | none => false) = true ∧
     codeMatch false "@(a|?(b)c)[!x]!(d|e*).txt" "bcyq.txt" = true ∧
     specMatch "@(a|?(b)c)[!x]!(d|e*).txt" "bcyq.txt" = true ∧
@@ -101,7 +103,7 @@ theorem D1_witness : specMatch "+(?)" "a.b" = true ∧ codeMatch false "+(?)" "a
 /-- … and it is excluded by `startSafe` only -/
 theorem D1_excluded_by_startSafe :
     (match Grammar.parsePat true "+(?)".toList with
-     | some g => g.c01Scope && g.noSlash && !g.startSafe
+     | some g => g.c01Scope && g.noSlash && !g.startSafe false
      | none => false) = true := by decide +kernel
 
 /-- D3 witness: `a⏎` is not in the language of `a`, so `!(a)` should accept it -/
